@@ -166,7 +166,7 @@ def one_case(ctx, index, rng: random.Random):
         with warnings.catch_warnings():
             warnings.simplefilter("ignore")
             if via == "h1":
-                h = physt.h1(data, bins_arg, dtype=float, **kw)  # float contents: gapped bins + integer contents is known finding D01
+                h = physt.h1(data, bins_arg, **kw)
                 b = h.binning
             elif via == "calc" or not isinstance(bins_arg, str) or bins_arg in ("sturges", "sqrt", "rice", "doane"):
                 b = _construction.calculate_1d_bins(data, bins_arg, **kw)
